@@ -90,6 +90,7 @@ class World:
         self.probe = None               # optional callable sampled when a socket is created (e.g. "is the node stopping?")
         self._tnow = None
         self._tcalls = 0
+        self.socket_fail = 0            # number of upcoming socket() calls that fail with EMFILE
         WORLD = self
 
     # ------------------------------------------------------------------ threads
@@ -609,8 +610,18 @@ class FakeSocket:
         return not self.send_blocked
 
 
+def _make_socket(*a, **k):
+    """socket.socket(): fails with EMFILE while the environment says the process is out of descriptors."""
+    w = _W()
+    if w.socket_fail > 0:
+        w.socket_fail -= 1
+        w.obs("socket_fail")
+        raise OSError(_errno.EMFILE, "Too many open files")
+    return FakeSocket(*a, **k)
+
+
 class SocketShim:
-    socket = FakeSocket
+    socket = staticmethod(_make_socket)
     error = OSError
 
     def __getattr__(self, n):
